@@ -378,7 +378,7 @@ func (ctx *Ctx) rloop(path []byte, r *node, nodes []node) {
 			}
 			// Mark RL as inuse and loop over var using inspector.
 			rl.stat = rlInuse
-			ctx.Err = v.ins.Loop(v.val, rl, &ctx.buf, ctx.bufS[1:]...)
+			ctx.Err = v.ins.Loop(v.val, rl, &rl.kbuf, ctx.bufS[1:]...)
 			rl.stat = rlFree
 			return
 		}
